@@ -27,8 +27,8 @@ REQUIRED_REACH = ["common.is_valid_release_short", "common.is_valid_release_vers
                   "common.create_release_id", "common.parse_release_id", "common._parse_release_id_part"]
 REQUIRED_MONITORS = ["predicate-short", "predicate-version", "predicate-type", "create-refuses-iff", "round-trip"]
 ALPHABET = ["a", "A", "1", "-", ".", "@", "_", "\n"]
-RT_CLASSES = ["short-plain", "short-dashed", "short-multi-dashed", "version-numeric", "version-dotted",
-              "version-freeform", "version-ends-like-type", "with-bp", "bp-short-dashed", "bp-type-nonga"] + \
+RT_CLASSES = ["short-plain", "short-dashed", "short-multi-dashed", "short-with-type-segment", "version-numeric", "version-dotted",
+              "version-leading-zeros", "version-freeform", "version-ends-like-type", "with-bp", "bp-short-dashed", "bp-type-nonga"] + \
              ["type-" + t for t in domains.RELEASE_TYPES]
 CLASS_FLOORS = dict((c, 10) for c in RT_CLASSES)
 CLASS_FLOORS.update({"refusal-short": 10, "refusal-version": 10, "refusal-type": 10, "refusal-bp": 10,
@@ -116,7 +116,9 @@ def gen_short(rng, dashes=None):
 
 
 def gen_version(rng, kind=None):
-    kind = kind or rng.choice(["numeric", "dotted", "freeform", "ends-like-type"])
+    kind = kind or rng.choice(["numeric", "dotted", "freeform", "ends-like-type", "leading-zeros"])
+    if kind == "leading-zeros":
+        return rng.choice(["00", "07", "7.00", "1.05", "2024.01.09", "0.0.01", "010"])
     if kind == "numeric":
         return str(rng.choice([0, 1, 7, 22, 2024, rng.randint(0, 10 ** 6)]))
     if kind == "dotted":
@@ -138,12 +140,18 @@ def gen_rt(rng, force=None):
         d = rng.choice([2, 3])
     c["short"] = gen_short(rng, d)
     vk = None
+    typeseg = force == "short-with-type-segment" or rng.random() < 0.05
     if force and force.startswith("version-"):
         vk = force[len("version-"):]
     c["version"] = gen_version(rng, vk)
     c["type"] = rng.choice(domains.RELEASE_TYPES)
     if force and force.startswith("type-"):
         c["type"] = force[5:]
+    if typeseg:
+        # a dashed short name with a later segment that starts with (or is) the text of the release type itself
+        t = c["type"] if c["type"] != "ga" else rng.choice(["eus", "fast", "updates"])
+        c["type"] = t
+        c["short"] = rng.choice(["rhel", "a-b", "sat", "x"]) + "-" + t.split("-")[0] + rng.choice(["", "6", "x", "-extras"])
     bp = rng.random() < 0.4 or force in ("with-bp", "bp-short-dashed", "bp-type-nonga")
     if bp:
         c["bp_short"] = gen_short(rng, 1 if force == "bp-short-dashed" else None)
@@ -167,6 +175,10 @@ def rt_classes(c):
         out.append("version-freeform")
     if any(v.endswith(t) for t in domains.RELEASE_TYPES):
         out.append("version-ends-like-type")
+    if v[:1].isdigit() and any(len(p) > 1 and p.startswith("0") for p in v.split(".")):
+        out.append("version-leading-zeros")
+    if any(seg.startswith(t.split("-")[0]) for seg in c["short"].split("-")[1:] for t in domains.RELEASE_TYPES if t != "ga"):
+        out.append("short-with-type-segment")
     out.append("type-" + c["type"])
     if c.get("bp_short"):
         out.append("with-bp")
